@@ -236,10 +236,25 @@ impl Prop for Lww {
         cfgs_strategy(2..=tier.pick(3, 4), false)
             .prop_flat_map(move |cfgs| {
                 let n = cfgs.len() as u8;
-                (Just(cfgs), prop::collection::vec(mstep_strategy(n), 4..=max_steps), sched_strategy(), cfgs_strategy(1..=1, false))
+                // a group is one step, or a burst: the same replica writes the same key several times in a
+                // row (adjacent clocks: the overwritten entries squash into one tombstone block that a
+                // concurrent write of another replica has to split again) and maybe removes it
+                let group = prop_oneof![
+                    8 => mstep_strategy(n).prop_map(|s| vec![s]),
+                    2 => (0..n, 0u8..3, 0u8..3, 2usize..5, any::<bool>()).prop_map(|(r, c, key, k, remove)| {
+                        let mut v: Vec<MStep> = (0..k).map(|_| MStep::Set { r, c, key, nested: false }).collect();
+                        if remove {
+                            v.push(MStep::Remove { r, c, key });
+                        }
+                        v
+                    }),
+                ];
+                (Just(cfgs), prop::collection::vec(group, 4..=max_steps), sched_strategy(), cfgs_strategy(1..=1, false))
             })
-            .prop_map(|(cfgs, steps, sched, mut obs)| {
+            .prop_map(move |(cfgs, groups, sched, mut obs)| {
                 obs[0].client = 7000;
+                let mut steps: Vec<MStep> = groups.into_iter().flatten().collect();
+                steps.truncate(max_steps + 8);
                 Case { cfgs, steps, sched, observer: obs.remove(0) }
             })
             .boxed()
